@@ -46,7 +46,12 @@ pub trait MapValidVec<T: IsNone>: Vec1View<T> {
                     .chain(std::iter::repeat_n(value, n_abs))
                     .to_trust(len),
             ),
-            _ => Box::new(std::iter::repeat_n(T::zero(), len).to_trust(len)),
+            // lag 0: x[i] - x[i], which is null where the element is null
+            _ => Box::new(
+                self.titer()
+                    .map(|v| if v.not_none() { T::zero() } else { T::none() })
+                    .to_trust(len),
+            ),
         }
     }
 
@@ -98,7 +103,18 @@ pub trait MapValidVec<T: IsNone>: Vec1View<T> {
                     .chain(std::iter::repeat_n(f64::NAN, n_abs))
                     .to_trust(len),
             ),
-            _ => Box::new(std::iter::repeat_n(0., len).to_trust(len)),
+            // lag 0: x[i] / x[i] - 1, which is null where the element is null or zero
+            _ => Box::new(
+                self.titer()
+                    .map(|v| {
+                        if v.not_none() && (Cast::<f64>::cast(v) != 0.) {
+                            0.
+                        } else {
+                            f64::NAN
+                        }
+                    })
+                    .to_trust(len),
+            ),
         }
     }
 
